@@ -65,3 +65,6 @@ func Crypt(key, data []byte, sector uint64, decrypt bool) []byte {
 	}
 	return out
 }
+
+// Double multiplies a tweak (16 bytes, little-endian) by x in GF(2^128).
+func Double(t [16]byte) [16]byte { return intToLE(double(leToInt(t[:]))) }
